@@ -121,7 +121,8 @@ def rgbToHsl (c : V3 α) : V3 α :=
   let l := sum / 2.0
   if ¬ eqv p.max p.min then
     let d := p.max - p.min
-    let s := if 1.0 < sum then d / (2.0 - sum) else d / sum
+    -- `(1 − max) + (1 − min)` instead of `2 − sum` (repair: `2 − sum` rounds to 0 next to white)
+    let s := if 1.0 < sum then d / ((1.0 - p.max) + (1.0 - p.min)) else d / sum
     let h := (p.sep / d + p.coeff) * 60.0
     ⟨h, s, l⟩
   else ⟨0.0, 0.0, l⟩
@@ -136,7 +137,7 @@ def rgbToHslMask (c : V3 α) : V3 α :=
   let sum := max + min
   let lightness := 0.5 * sum
   let chroma := max - min
-  let saturation := if eqv min max then 0.0 else chroma / (if 1.0 < sum then 2.0 - sum else sum)
+  let saturation := if eqv min max then 0.0 else chroma / (if 1.0 < sum then (1.0 - max) + (1.0 - min) else sum)
   let hue := maskHue red green blue max chroma
   ⟨hue * 60.0, saturation, lightness⟩
 
